@@ -356,6 +356,8 @@ IsStop(tok) == tok[1] \in {"c", "bad"}
 (* own address) | "ownfull" | "was" (the bare form of an address that is not the      *)
 (* session's (any more))                                                              *)
 Elem(kind, from, body) == [k |-> "el", kind |-> kind, from |-> from, body |-> body]  \* kind "stanza" | "foreign"
+(* "utext" is text made of Unicode spaces that are NOT XML white space (U+00A0, U+2003, U+2028, U+3000, U+0085), "mtext" the  *)
+(* same mixed with XML white space: both are non-whitespace text between elements.                                   *)
 (* "ws" "text" "comment" "pi" "directive" "restart" "otherstream" "close" "eof" "badtop" arrive from the peer;  *)
 (* "lclose" is a step of the LOCAL side between two arrivals: it calls Close() (its output stream ends)      *)
 Top(k) == [k |-> k]
@@ -411,8 +413,12 @@ C08_Outcomes(items) ==
             [] OTHER            -> {<<"err">>}
 
 (* handler program: n read attempts; on a read error it stops ("stop") or carries on *)
-(* ("ignore"); end-of-element reports are not errors. It returns nil either way.     *)
+(* ("ignore"); end-of-element reports are not errors. It returns nil - or, in mode    *)
+(* "stopeof" (otherwise like "stop"), io.EOF: "the handler reached the end of its     *)
+(* element (or chose to report it)", eg the io.EOF of a sub-reader over one child; it *)
+(* is no statement about the stream and changes nothing.                              *)
 Prog8(n, mode) == [n |-> n, mode |-> mode]
+Stops(p) == p.mode \in {"stop", "stopeof"}
 (* what the handler observes, as far as the property determines it: the tokens of    *)
 (* pre (at most n), then - if it asked for more - an error (element with a stop) or  *)
 (* end-of-element reports; after an error that it ignores, what it reads is not      *)
@@ -478,7 +484,7 @@ Observe(e) == c8log' = [c8log EXCEPT ![Len(c8log)].ev = Append(@, e)]
 
 (* the handler asks for one more token of its element *)
 C08_HandlerRead ==
-  /\ c8pc = "handler" /\ c8left > 0 /\ ~(c8stuck /\ CurProg.mode = "stop")
+  /\ c8pc = "handler" /\ c8left > 0 /\ ~(c8stuck /\ Stops(CurProg))
   /\ c8left' = c8left - 1
   /\ LET w == Window(CurEl) IN
      IF c8stuck THEN      \* after an ignored error nothing is promised about what it reads (<<"free">>),
@@ -491,7 +497,7 @@ C08_HandlerRead ==
 
 (* a handler in "stop" mode gives up reading at the first error *)
 C08_HandlerStops ==
-  /\ c8pc = "handler" /\ c8left > 0 /\ c8stuck /\ CurProg.mode = "stop"
+  /\ c8pc = "handler" /\ c8left > 0 /\ c8stuck /\ Stops(CurProg)
   /\ c8left' = 0 /\ UNCHANGED <<c8sess, c8oclosed, c8in, c8progs, c8i, c8pc, c8pos, c8stuck, c8log, c8out>>
 
 (* the handler returns nil: a construct it met ends the session; otherwise the rest  *)
